@@ -5,6 +5,7 @@
      {a:"Reset", beh, mn, w, base, wiring, <post>}        new cache; mn = CachePendingSeqMaxNum
      {a:"Arrive", seq, end:0, kind, old, <post>}           processEntry / releaseUnusedSequence / processPrincipalDoc
      {a:"Range",  seq, end, kind:"unused", old, <post>}    releaseUnusedSequenceRange (seq < end)
+     {a:"Doc", seq, unused:[..], recent:[..], old, <post>}  DocChanged with a forged document feed event
      {a:"Tick", <post>}   {a:"Abandon", <post>}
      {a:"Conc", evs:[{seq,end,kind,old}..], <post>}        a multiset delivered by several goroutines; out = all
                                                            forwards in the order they happened under the lock
@@ -31,9 +32,9 @@ TInit == Init /\ l = 1
 
 Reset == /\ Ev("Reset") /\ Logged
          /\ maxNum' = Trace[l].mn
-         /\ owner' = [s \in Win |-> NoOwner] /\ legal' = TRUE /\ docArr' = {} /\ cnt' = [s \in Win |-> 0] /\ rcnt' = 0
+         /\ owner' = [s \in Win |-> NoOwner] /\ legal' = TRUE /\ docArr' = {} /\ superseded' = {} /\ cnt' = [s \in Win |-> 0] /\ rcnt' = 0
          /\ delivered' = [s \in Win |-> 0] /\ hiNL' = 0 /\ ordOK' = TRUE /\ phantom' = FALSE /\ abandoned' = {}
-         /\ lateSet' = {} /\ lastKind' = "init" /\ hist' = <<>>
+         /\ lateSet' = {} /\ lateDoc' = {} /\ lastKind' = "init" /\ hist' = <<>>
 
 (* a concurrently delivered multiset: only the final state and the order of forwards are known *)
 RECURSIVE GApplyAll(_, _, _)
@@ -41,26 +42,29 @@ GApplyAll(g, evs, i) == IF i > Len(evs) THEN g ELSE GApplyAll(GApply(g, E(evs[i]
 GhostConc(evs) ==
   LET g == GApplyAll(GCur, evs, 1) IN
   /\ legal' = g.legal /\ owner' = g.owner /\ docArr' = g.docArr
-  /\ lateSet' = {} /\ lastKind' = "conc"
+  /\ lateSet' = {} /\ lateDoc' = {} /\ lastKind' = "conc"
   /\ GhostOut(g.docArr)
-  /\ UNCHANGED <<maxNum, abandoned, cnt, rcnt>>
+  /\ UNCHANGED <<maxNum, abandoned, superseded, cnt, rcnt>>
 
 (* pass P: implementation variables := logged real state; ghosts advance from the logged inputs *)
 PArrive  == Ev("Arrive")  /\ Logged /\ GhostArrive(E(Trace[l]))      /\ UNCHANGED hist
 PRange   == Ev("Range")   /\ Logged /\ GhostArriveRange(E(Trace[l])) /\ UNCHANGED hist
+D(r) == [seq |-> r.seq, unused |-> r.unused, recent |-> r.recent, old |-> r.old]
+PDoc     == Ev("Doc")     /\ Logged /\ GhostDoc(D(Trace[l]))         /\ UNCHANGED hist
 PTick    == Ev("Tick")    /\ Logged /\ GhostTick                     /\ UNCHANGED hist
 PAbandon == Ev("Abandon") /\ Logged /\ GhostAbandon                  /\ UNCHANGED hist
 PConc    == Ev("Conc")    /\ Logged /\ GhostConc(Trace[l].evs)       /\ UNCHANGED hist
-PNext == Reset \/ PArrive \/ PRange \/ PTick \/ PAbandon \/ PConc
+PNext == Reset \/ PArrive \/ PRange \/ PDoc \/ PTick \/ PAbandon \/ PConc
 PSpec == TInit /\ [][PNext]_tvars
 
 (* pass C: each logged step is an instance of the corresponding action, from the previous REAL state *)
 CArrive  == Ev("Arrive")  /\ ImplArrive(E(Trace[l]))      /\ Logged /\ GhostArrive(E(Trace[l]))      /\ UNCHANGED hist
 CRange   == Ev("Range")   /\ ImplArriveRange(E(Trace[l])) /\ Logged /\ GhostArriveRange(E(Trace[l])) /\ UNCHANGED hist
+CDoc     == Ev("Doc")     /\ ImplDoc(D(Trace[l]))         /\ Logged /\ GhostDoc(D(Trace[l]))         /\ UNCHANGED hist
 CTick    == Ev("Tick")    /\ ImplTick                     /\ Logged /\ GhostTick                     /\ UNCHANGED hist
 CAbandon == Ev("Abandon") /\ ImplAbandon                  /\ Logged /\ GhostAbandon                  /\ UNCHANGED hist
 CReset   == Reset /\ InitImpl'
-CNext == CReset \/ CArrive \/ CRange \/ CTick \/ CAbandon \/ PConc
+CNext == CReset \/ CArrive \/ CRange \/ CDoc \/ CTick \/ CAbandon \/ PConc
 CSpec == TInit /\ [][CNext]_tvars
 
 Progress == Mark(l)
